@@ -191,15 +191,26 @@ Proof.
   unfold frow. destruct (Nat.ltb i (nrows f)); [|discriminate]. intros H.
   apply all_some_map_length in H. exact H.
 Qed.
+(* case analysis on a function id of the menu: ids 0 .. 15 one by one and a last case
+   S^16 id (the default branch of apply_fn).  The menu currently ends at 13; the two spare
+   levels fall into the default branch and are closed by the same tactics, so the menu can
+   grow a little without the case analyses below having to be re-nested. *)
+Ltac menu_cases id := do 16 (try (destruct id as [|id]; [|])).
+
 (* every function of the menu that returns a []any returns as many cells as it received,
-   except the two that change the length on purpose (10 shortens, 11 lengthens) *)
+   except the two that change the length on purpose (10 shortens, 11 lengthens); the other
+   two length-changing functions (12, 13) return typed slices, not a []any *)
+Lemma apply_fn_any_length_gen id x l : id <> 10%nat -> id <> 11%nat ->
+  apply_fn id x = RAny l -> length l = length x.
+Proof.
+  menu_cases id; cbn [apply_fn]; intros H10 H11 H;
+    try discriminate; try congruence; inversion H;
+    rewrite ?rev_length, ?map_length; reflexivity.
+Qed.
 Lemma apply_fn_any_length id x l : fn_keeps_length id = true ->
   apply_fn id x = RAny l -> length l = length x.
 Proof.
-  unfold fn_keeps_length.
-  destruct id as [|[|[|[|[|[|[|[|[|[|[|[|id]]]]]]]]]]]]; cbn [apply_fn]; intros Hk H;
-    try discriminate; inversion H;
-    rewrite ?rev_length, ?map_length; reflexivity.
+  intros Hk. apply apply_fn_any_length_gen; intros ->; discriminate Hk.
 Qed.
 (* a row result is the cells, or (too few values returned) an error: never a panic, for any
    function, any number of columns, any argument *)
